@@ -112,7 +112,15 @@ def check(ctx, rep):
                            ["range::BoundSet::difference"],
                            False if dif_panics else (None if dif_inconc else True), [r["cov"] for r in dif_rows if "cov" in r],
                            why_bad="the difference table reaches a panic"))
-    families.extend(unreachable_arms(prog, env, rep))
+    def by_pattern(s_):
+        if s_["kind"] == "assert" and s_.get("msg") == "Overflow":
+            if "Add" in s_["detail"] and (version_component_plus_one(prog, s_) or small_add_on_size_is_safe(prog, s_)):
+                return True
+            return const_arith_is_safe(prog, s_)
+        if s_["kind"] == "assert" and s_.get("msg") == "BoundsCheck":
+            return index_bounded_by_type(prog, s_)
+        return False
+    families.extend(unreachable_arms(prog, env, rep, [s_ for s_ in sites if not by_pattern(s_)]))
     families.append(range_any(prog, rep))
     entry, entry_fams = entry_points(prog, rep)
     families.extend(entry_fams)
@@ -120,6 +128,7 @@ def check(ctx, rep):
         families.append(location_family(ctx, prog, rep))
     elif "inconclusive" in entry.values():
         families.append(Family("location", "D-LOC", "", ["SemverError::location"], None))
+    families.extend(order_families(prog, env, rep))
     signed = [k for k in prog.bodies if FROM_SIGNED.match(k)]
     families.append(Family("from-signed", "D-PRE", "debug_assert on a negative component: outside the input domain of the "
                            "property (precondition)", signed, True, kinds=("panic_fmt",)))
@@ -146,6 +155,12 @@ def check(ctx, rep):
         if rule is None and kind == "assert" and s["msg"] == "Overflow" and "Add" in s["detail"] and version_component_plus_one(prog, s):
             rule, why = "D-NUM-STORED", ("operand is a numeric component of a Version (the property's domain and INV-NUM bound it by "
                                          "MAX_SAFE_INTEGER + 1) plus 1")
+        if rule is None and kind == "assert" and s["msg"] == "Overflow" and "Add" in s["detail"] and small_add_on_size_is_safe(prog, s):
+            rule, why = "D-SIZE", ("a small constant added to a 64-bit collection length or to a counter that only ever grows by small "
+                                   "constants from a constant: lengths are at most isize::MAX, and a counter cannot reach 2^64 in "
+                                   "feasible time (termination is the BOUNDED-LOOPS / NO-RECURSION rules)")
+        if rule is None and kind == "assert" and s["msg"] == "BoundsCheck" and index_bounded_by_type(prog, s):
+            rule, why = "D-INDEX-TYPE", "the index is a widening cast of a value whose type cannot reach the constant length of the array"
         if rule is None and kind == "assert" and s["msg"] == "Overflow" and const_arith_is_safe(prog, s):
             rule, why = "D-CONST", "arithmetic on two constants that does not overflow"
         if rule is None:
@@ -186,6 +201,116 @@ def const_arith_is_safe(prog, s):
             lo, hi = (-(1 << (bits - 1)), (1 << (bits - 1)) - 1) if signed else (0, (1 << bits) - 1)
             return lo <= r <= hi
     return False
+
+
+def index_bounded_by_type(prog, s):
+    """BoundsCheck { len: const N, index: x } where x = (y as usize) and the type of y has fewer than N values"""
+    m = re.search(r"BoundsCheck \{ len: const (\d+)_usize, index: (?:copy|move) _(\d+) \}", s["detail"])
+    if not m:
+        return False
+    n, idx = int(m.group(1)), int(m.group(2))
+    body = prog.bodies[s["owner"]]
+    defs = [st["rv"] for bb in body["blocks"] for st in bb["stmts"]
+            if st["k"] == "assign" and not st["place"]["p"] and st["place"]["l"] == idx]
+    if len(defs) != 1 or defs[0].get("k") != "cast" or defs[0].get("kind") != "IntToInt":
+        return False
+    ft = prog.types[defs[0]["from"]]
+    if ft.get("k") == "bool":
+        return n >= 2
+    if ft.get("k") != "int" or ft.get("signed"):
+        return False
+    return (1 << ft.get("bits", 64)) <= n
+
+
+LEN_LIKE = ("::len", "::count", "::capacity", "::position", "::rposition")
+
+
+def small_add_on_size_is_safe(prog, s):
+    """`x + c` (c <= 16) where x is a 64-bit unsigned local defined only by std length-like calls, constants, or
+    `x' + small constant` of such locals (a monotone counter)"""
+    body = prog.bodies[s["owner"]]
+    bb = body["blocks"][s["bb"]]
+    add = None
+    for st in reversed(bb["stmts"]):
+        if st["k"] == "assign" and st["rv"].get("k") == "binop" and st["rv"]["op"] == "AddWithOverflow":
+            add = st["rv"]
+            break
+    if add is None:
+        return False
+    t = prog.types[add["ty"]]
+    if t.get("k") != "int" or t.get("signed") or t.get("bits", 64) < 64:
+        return False
+    cst = add["b"].get("const")
+    if not (cst and cst.get("kind") == "int" and 0 <= int(cst["v"]) <= 16):
+        return False
+    defs = {}
+    for b2 in body["blocks"]:
+        for st in b2["stmts"]:
+            if st["k"] == "assign" and not st["place"]["p"]:
+                defs.setdefault(st["place"]["l"], []).append(("rv", st["rv"]))
+        tm = b2["term"]
+        if tm["k"] == "call" and tm.get("dest") and not tm["dest"]["p"]:
+            c = flow.callee_of(tm)
+            defs.setdefault(tm["dest"]["l"], []).append(("call", flow.callee_key(c) if c else None))
+
+    def local_of(op):
+        for k in ("copy", "move"):
+            if k in op and not op[k]["p"]:
+                return op[k]["l"]
+        return None
+
+    def ok_local(l, seen):
+        if l in seen:
+            return True
+        if l <= body["arg_count"] and l != 0:
+            return False                        # a parameter: unknown value
+        seen = seen | {l}
+        ds = defs.get(l)
+        if not ds:
+            return False
+        for kind, d in ds:
+            if kind == "call":
+                if not (d and d.endswith(LEN_LIKE) and d.startswith(("std::", "core::", "alloc::", "<std::", "<core::"))):
+                    return False
+                continue
+            k = d.get("k")
+            if k == "use":
+                op = d["op"]
+                if "const" in op:
+                    if op["const"].get("kind") != "int" or int(op["const"]["v"]) > (1 << 32):
+                        return False
+                    continue
+                src = None
+                for kk in ("copy", "move"):
+                    if kk in op:
+                        pl = op[kk]
+                        if not pl["p"]:
+                            src = ("l", pl["l"])
+                        elif len(pl["p"]) == 1 and pl["p"][0][0] == "field" and pl["p"][0][1] == 0:
+                            src = ("sum", pl["l"])
+                if src is None:
+                    return False
+                if src[0] == "l":
+                    if not ok_local(src[1], seen):
+                        return False
+                else:
+                    # field 0 of a checked-add tuple: the tuple must be `x' + small constant`
+                    for k2, d2 in defs.get(src[1], []):
+                        if k2 != "rv" or d2.get("k") != "binop" or d2["op"] != "AddWithOverflow":
+                            return False
+                        c2 = d2["b"].get("const")
+                        if not (c2 and c2.get("kind") == "int" and 0 <= int(c2["v"]) <= 16):
+                            return False
+                        a2 = local_of(d2["a"])
+                        if a2 is None or not ok_local(a2, seen):
+                            return False
+                    if not defs.get(src[1]):
+                        return False
+                continue
+            return False
+        return True
+    a = local_of(add["a"])
+    return a is not None and ok_local(a, frozenset())
 
 
 def version_component_plus_one(prog, s):
@@ -280,28 +405,65 @@ def desugar_family(prog, rep):
                   "of the desugaring tables reaches a panic", roots, verdict, cov, why_bad="a cell of the desugaring table reaches a panic")
 
 
-def unreachable_arms(prog, env, rep):
-    """no (Lower, Upper) shaped BoundSet reaches the unreachable! arms of satisfies / Display"""
+def _shape_signature(prog, key):
+    """argument kinds of a function that can be enumerated by (bound-set shape, order) cases: exactly one BoundSet
+    (by reference), then optionally a &Version and/or a &mut Formatter; None when the signature is different"""
+    b = prog.bodies[key]
+    kinds = []
+    for i in range(b["arg_count"]):
+        ts = prog.ty_str(b["locals"][i + 1])
+        if ts == "&range::BoundSet":
+            kinds.append("set")
+        elif ts == "&Version":
+            kinds.append("version")
+        elif ts.startswith("&mut std::fmt::Formatter"):
+            kinds.append("fmt")
+        else:
+            return None
+    if kinds.count("set") != 1 or kinds.count("version") > 1 or kinds.count("fmt") > 1:
+        return None
+    return kinds
+
+
+def unreachable_arms(prog, env, rep, sites=()):
+    """no (Lower, Upper) shaped BoundSet reaches a panic (the unreachable! arms) in satisfies / Display — and in any
+    other function that has panic-capable sites and takes one BoundSet (plus a version / a formatter): the (Lower, Upper)
+    shape is an invariant of every BoundSet (INV-LU), so the enumeration covers every call of such a function"""
     res = []
     from ..report import coverage
-    for key in ("range::BoundSet::satisfies", "<range::BoundSet as std::fmt::Display>::fmt"):
+    from .. import versions as V
+    keys = ["range::BoundSet::satisfies", "<range::BoundSet as std::fmt::Display>::fmt"]
+    for o in sorted(set(s["owner"] for s in sites)):
+        if o not in keys and prog.bodies[o]["def_kind"] in ("Fn", "AssocFn") and _shape_signature(prog, o):
+            keys.append(o)
+    for key in keys:
+        if not prog.has_body(key):
+            continue
+        sig = _shape_signature(prog, key)
+        if sig is None:
+            rep.inconc("D-INV: %s does not have the (&BoundSet[, &Version][, &mut Formatter]) signature" % key)
+            res.append(Family(key, "D-INV", "", [key], None))
+            continue
         good = True
         n = 0
         cov = []
         for lo in intervals.SHAPES:
             for up in intervals.SHAPES:
-                names = [x for x, s in (("lo", lo), ("up", up)) if s != "U"] + ["v"]
-                for w in intervals.weak_orders(names):
+                names = [x for x, s_ in (("lo", lo), ("up", up)) if s_ != "U"] + (["v"] if "version" in sig else [])
+                for w in intervals.weak_orders(names) if names else [{}]:
                     lob = ("L", lo, intervals.vtok("lo", w["lo"]) if lo != "U" else None)
                     upb = ("U", up, intervals.vtok("up", w["up"]) if up != "U" else None)
                     run = intervals.Run(prog, env)
                     bs = intervals.build_set(env, (lob, upb))
-                    if key.endswith("satisfies"):
-                        from .. import versions as V
-                        v = V.gate_token("v", w["v"], False, (0, 0, 0), prog)
-                        st, val = run.call(key, [Ptr(Cell(bs)), Ptr(Cell(v))])
-                    else:
-                        st, val = run.call(key, [Ptr(Cell(bs)), Ptr(Cell(Formatter()))])
+                    args = []
+                    for k in sig:
+                        if k == "set":
+                            args.append(Ptr(Cell(bs)))
+                        elif k == "version":
+                            args.append(Ptr(Cell(V.gate_token("v", w["v"], False, (0, 0, 0), prog))))
+                        else:
+                            args.append(Ptr(Cell(Formatter())))
+                    st, val = run.call(key, args)
                     n += 1
                     rep.path((key, path_sig(run.interp)))
                     cov.append(coverage(run.interp))
@@ -317,6 +479,58 @@ def unreachable_arms(prog, env, rep):
                           "case reaches a panic", [key], good, cov, why_bad="a (Lower, Upper) shaped BoundSet reaches a panic"))
         rep.analysed_item("%s interpreted on %d (shape, order) cases for reachability of its unreachable! arms" % (key, n))
     return res
+
+
+def order_families(prog, env, rep):
+    """further functions that the tables of the neighbouring properties enumerate exhaustively; re-run here only for
+    reachability of panics (bounds checks on lookup tables, unwraps): Bound::cmp, BoundSet::new, the two-set
+    operations, Version::{cmp, partial_cmp, eq, diff}"""
+    from .. import versions as V
+    from ..report import coverage
+    fams = []
+
+    def fam(name, roots, rows, status_of, why):
+        verdict = True
+        cov = []
+        for r in rows:
+            st = status_of(r)
+            if "cov" in r:
+                cov.append(r["cov"])
+            if st == "panic":
+                verdict = False
+                rep.fail("D-TABLE", "%s|D-TABLE|panic" % roots[0], "%s reaches a panic: %s" % (roots[0], r.get("error") or r.get("problems") or r.get("key")))
+                break
+            if st == "inconclusive" and verdict:
+                verdict = None
+        if verdict is None:
+            rep.inconc("D-TABLE %s: a row of the table is inconclusive" % roots[0])
+        fams.append(Family(name, "D-TABLE", why, roots, verdict, cov, why_bad="a row of the %s table reaches a panic" % name))
+    rows = intervals.table_cmp(prog, env)
+    fam("bound-cmp", [intervals.BOUND_CMP], rows, lambda r: r["status"],
+        "no cell of the Bound::cmp table (every pair of bound kinds x order of the versions) reaches a panic")
+    rows = intervals.table_new(prog, env)
+    fam("boundset-new", ["range::BoundSet::new"], rows,
+        lambda r: "panic" if r["status"] == "panic" else ("inconclusive" if "inconclusive" in r else "ok"),
+        "no (lower, upper, order) case of BoundSet::new reaches a panic")
+    for op, key in (("intersect", "range::BoundSet::intersect"), ("allows_any", "range::BoundSet::allows_any"),
+                    ("allows_all", "range::BoundSet::allows_all")):
+        rows = intervals.table_op(prog, env, op)
+        fam("boundset-" + op, [key], rows,
+            lambda r: "panic" if r["status"] == "panic" else ("inconclusive" if "inconclusive" in r else "ok"),
+            "no row of the %s table (all shapes x weak orders) reaches a panic" % op)
+    for key, zero in (("Version::diff", True), ("<Version as std::cmp::Ord>::cmp", False),
+                      ("<Version as std::cmp::PartialOrd>::partial_cmp", False), ("<Version as std::cmp::PartialEq>::eq", False)):
+        if not prog.has_body(key):
+            continue
+        rows = []
+        for a, b in V.two_version_worlds(with_zero=zero):
+            st, r, it = V.run2(prog, key, a, b)
+            rows.append({"status": st, "cov": coverage(it), "error": str(r) if st != "ok" else None})
+            if st != "ok":
+                break
+        fam(key, [key], rows, lambda r: r["status"],
+            "no world of the %s table (field orderings x identifier-list valuations) reaches a panic" % key)
+    return fams
 
 
 def range_any(prog, rep):
